@@ -54,6 +54,9 @@ def test_vloop():
 
 def main():
     sys.path.insert(0, '/verif')
+    from vf import boot
+
+    boot.install(services=False)
     test_vloop()
     try:
         from vf.minisql import selftest as ms
